@@ -71,6 +71,53 @@ func main() {
 			solveAll([]*Obligation{r.Ob}, 60, 0, 1)
 			fmt.Printf("%-5s %-40s A=%d B=%d prod=%d classes=%d %s %.2fs (total %.2fs) wit=%q\n", r.Ob.Result.Verdict, lm.Name, r.StatesA, r.StatesB, r.Product, r.Classes, r.Ob.Result.Solver, r.Ob.Result.Seconds, time.Since(t0).Seconds(), r.Witness)
 		}
+	case "stab":
+		// govc stab N KEY...: solve every obligation of the functions under N different solver seeds,
+		// without retries, and list the obligations that are not discharged under some seed
+		p, err := loadProg("/repo", "/verif/spec")
+		if err != nil {
+			fmt.Fprintln(os.Stderr, "ENGINE-ERROR:", err)
+			os.Exit(2)
+		}
+		p.prepareLemmaAxioms()
+		n := 5
+		fmt.Sscanf(os.Args[2], "%d", &n)
+		keys := os.Args[3:]
+		if len(keys) == 0 {
+			for k, c := range p.spec.Contracts {
+				if !c.Assumed {
+					keys = append(keys, k)
+				}
+			}
+			sort.Strings(keys)
+		}
+		noRetry = true
+		for _, k := range keys {
+			rep := p.verifyFunc(k)
+			bad := map[string][]int{}
+			slow := map[string]float64{}
+			for seed := 1; seed <= n; seed++ {
+				for _, ob := range rep.Obs {
+					ob.Result = nil
+				}
+				solveAll(rep.Obs, 25, seed, 14)
+				for _, ob := range rep.Obs {
+					if ob.Result == nil || ob.Result.Verdict != ob.Expect {
+						bad[ob.Name] = append(bad[ob.Name], seed)
+					} else if ob.Result.Seconds > slow[ob.Name] {
+						slow[ob.Name] = ob.Result.Seconds
+					}
+				}
+			}
+			for nm, seeds := range bad {
+				fmt.Printf("UNSTABLE %s fails under seeds %v of 1..%d\n", nm, seeds, n)
+			}
+			for nm, sec := range slow {
+				if sec > 5 {
+					fmt.Printf("SLOW     %s up to %.1fs\n", nm, sec)
+				}
+			}
+		}
 	case "funcs":
 		p, err := loadProg("/repo", "/verif/spec")
 		if err != nil {
@@ -109,6 +156,9 @@ func main() {
 						status = "ok"
 					}
 					fmt.Printf("   %-4s %-60s %s %s %.2fs  %s\n", status, ob.Name, ob.Result.Verdict, ob.Result.Solver, ob.Result.Seconds, ob.Pos)
+					if os.Getenv("GOVC_DEBUG") == "all" && ob.fx != nil {
+						os.WriteFile("/tmp/govc_all_"+sanitizeIdent(ob.Name)+".smt2", []byte(ob.fx.scriptFor(ob)), 0o644)
+					}
 					if status == "FAIL" && os.Getenv("GOVC_DEBUG") != "" {
 						fmt.Println(truncate(ob.Result.Output, 3000))
 						os.WriteFile("/tmp/govc_fail_"+sanitizeIdent(ob.Name)+".smt2", []byte(ob.fx.scriptFor(ob)), 0o644)
@@ -118,6 +168,8 @@ func main() {
 		}
 	}
 }
+
+var noRetry bool
 
 func solveAll(obs []*Obligation, timeoutS, seed, par int) {
 	var wg sync.WaitGroup
@@ -164,6 +216,18 @@ func solveAll(obs []*Obligation, timeoutS, seed, par int) {
 						r2.Seconds += r.Seconds
 						r = r2
 					}
+				}
+			}
+			if !noRetry && !ob.Canary && r.Verdict == VUnknown && ob.Expect == VUnsat {
+				// solvers are sensitive to their random seed: two more attempts before "unknown" counts
+				for _, sd := range []int{seed + 7, seed + 13} {
+					r3 := solve(script, to, sd, false)
+					r3.Seconds += r.Seconds
+					if r3.Verdict != VUnknown {
+						r = r3
+						break
+					}
+					r.Seconds = r3.Seconds
 				}
 			}
 			if ob.Canary && r.Verdict != VUnsat {
